@@ -152,6 +152,7 @@ def run(ctx):
                     prob = f"index {i} of {n}: shows packets {m} (by APID {APID0} + j), expected packet {i}"
             if prob:
                 ctx.violation("C19/parse/" + ("crash" if "exception" in prob else "selection"), prob, {"cmd": "parse", "n": n, "idx": i})
+    mixed_section(ctx, tmp)
     # ---- termination and robustness on files that do not end on a packet boundary / are empty (child process, time limit)
     extra = [("empty", make_file(tmp, 0, "empty.bin")), ("truncated-header", make_file(tmp, 3, "th.bin", b"\x08\x64\xc0")),
              ("truncated-body", make_file(tmp, 3, "tb.bin", defs.mk_packet(bytes(20), apid=7)[:12])),
@@ -187,6 +188,54 @@ def run(ctx):
         if rc != 0 or exc is not None or len(hdrs) <= 10 or got != want:
             ctx.violation("C19/describe-packets/jpss", f"JPSS listing ({len(hdrs)} packets): exit {rc}, rows {rows[:12]}; expected header fields {want}", {"file": jp})
         ctx.extra["jpss_rows"] = len(rows)
+
+
+def xtce_file_partly(dirn):
+    """definition recognising only APIDs below 1500 (abstract header root with one restricted child)"""
+    from lxml import etree
+    from space_packet_parser.xtce import comparisons, containers, definitions, encodings, parameter_types, parameters
+    body = parameters.Parameter("BODY", parameter_types.IntegerParameterType("BODY_T", encodings.IntegerDataEncoding(16, "unsigned")))
+    child = containers.SequenceContainer("KNOWN", [body], base_container_name="CCSDSPacket",
+                                         restriction_criteria=[comparisons.Comparison("1500", "PKT_APID", "<")])
+    root = containers.SequenceContainer("CCSDSPacket", defs.header_params(), abstract=True, inheritors=["KNOWN"])
+    d = definitions.XtcePacketDefinition([root, child])
+    d.date = "2024-01-01"
+    path = os.path.join(dirn, "def-partly.xml")
+    with open(path, "wb") as f:
+        f.write(etree.tostring(d.to_xml_tree()))
+    return path
+
+
+def mixed_section(ctx, tmp):
+    """Files in which every second packet is of an APID the definition does not recognise: `spp parse` decodes m < n packets. Index 0 shows
+    packet 0, indices outside 0..n-1 get the out-of-range message, indices in between show at most one packet or a message - and no index
+    ends in a traceback."""
+    xt2 = xtce_file_partly(tmp)
+    for n in (1, 2, 5, 6, 11):
+        path = os.path.join(tmp, f"mixed{n}.bin")
+        with open(path, "wb") as f:
+            for j in range(n):
+                f.write(defs.mk_packet(bytes([j, 0xAB]), apid=(APID0 + j) if j % 2 == 0 else 1500 + j, seq=j))
+        m = (n + 1) // 2
+        for i in range(-1, n + 2):
+            rc, out, exc = in_process(["parse", path, xt2, f"--packet={i}"])
+            ctx.traces += 1
+            ctx.count(("parse-mixed", n, i))
+            shown = sorted({int(t) - APID0 for toks in table_lines(out) for t in toks if re.fullmatch(r"\d+", t) and APID0 <= int(t) < APID0 + 64})
+            prob = None
+            if rc != 0 or exc is not None or "Traceback" in out:
+                prob = f"exit code {rc}, exception {exc!r}"
+            elif i == 0 and shown != [0]:
+                prob = f"shows packets {shown}, expected packet 0"
+            elif (i < 0 or i >= n) and (shown or not out.strip()):
+                prob = f"expected an out-of-range message and no packet, got packets {shown}: {out[:120]!r}"
+            elif len(shown) > 1 or not out.strip():
+                # indices between the decoded and the framed count: whether they count decoded or framed packets is not fixed by the
+                # property; at most one packet, or a message - and never a traceback
+                prob = f"shows packets {shown}: {out[:120]!r}"
+            if prob:
+                ctx.violation("C19/parse-mixed/" + ("crash" if "exception" in prob else "selection"),
+                              f"file of {n} packets of which {m} are recognised, index {i}: {prob}", {"cmd": "parse-mixed", "n": n, "idx": i})
 
 
 def replay(ctx, obj):
